@@ -8,6 +8,7 @@ Theorems are for EVERY multigraph without self-loops (parallel links, dead ends,
 `CompOk` of `networkx.connected_components` on the graph without the valved links.
 -/
 import WntrModel.Lemmas.Segments
+import WntrModel.Lemmas.SegmentsComp
 import Mathlib.Tactic.FieldSimp
 import Mathlib.Tactic.Ring
 import Mathlib.Tactic.Linarith
@@ -69,6 +70,17 @@ theorem labels_partition_spec (i : Inp) (comp : Nat → Nat) (hv : i.valid = tru
       · exact incNL_label hv hc hs
       · exact (incNL_label hv hc hs).symm
       · cases hs
+
+/-- **labels_partition_concrete**: the same statement with NO hypothesis on a components function: for the concrete one of
+`Model/Segments.lean` (`compChecked`: min-label relaxation + closure test, `compChecked_ok`), which the driver runs -/
+theorem labels_partition_concrete (i : Inp) (hv : i.valid = true) (lab : List Nat) (h : compChecked i = some lab)
+    (a b : Vtx) (ha : InG i a) (hb : InG i b) :
+    label i (fun u => lab.getD u 0) a = label i (fun u => lab.getD u 0) b ↔ SameSeg i a b :=
+  labels_partition_spec i _ hv (compChecked_ok i hv lab h) a b ha hb
+
+/-- the contract is met by the concrete function (re-exported as an obligation of this property) -/
+theorem components_contract_concrete (i : Inp) (hv : i.valid = true) (lab : List Nat) (h : compChecked i = some lab) :
+    CompOk i (fun u => lab.getD u 0) := compChecked_ok i hv lab h
 
 /-! ### sizes -/
 
@@ -146,4 +158,10 @@ example : exInp.rows.map (·.1) = [0, 2, 3, 4] := by decide
 example : numSurround exInp.rows (exInp.nodeLabel (compMin exInp)) (exInp.linkLabel (compMin exInp)) (0, 1) = 3 := by decide
 example : increase 1 5 = 1 / 5 := by decide +kernel
 
+end Wntr.Segments
+
+namespace Wntr.Segments
+/-- non-vacuity of `labels_partition_concrete`: the concrete components function accepts the example (nodes 1 and 2 are joined
+by the unvalved parallel link 2) -/
+example : compChecked exInp = some [0, 1, 1, 3] := by decide
 end Wntr.Segments
